@@ -422,43 +422,38 @@ Definition mark_child_deleted (n : nodeid) (name : string) : M unit :=
   | None => ret tt
   end.
 
-(** notifyNameChange: Renamed on every fidRef registered in the subtree that is still alive
-    (TryIncRef); the references taken are returned and dropped by the caller after the whole
-    notification *)
-Fixpoint notify_name_change (fuel : nat) (n : nodeid) : M (list refid) :=
+(** notifyNameChange + the deferred release in renameChildTo: Renamed on every fidRef registered in the
+    subtree that is still alive (TryIncRef); the references taken are dropped by a deferred function
+    after the whole notification, also when a Renamed callback panics.  Written with a continuation
+    [k] (what follows the notification) inside the defers; the model drops the references in the
+    reverse of Go's order, which is unobservable: a reference taken by TryIncRef is never the last *)
+Fixpoint notify_name_change {A} (fuel : nat) (n : nodeid) (k : M A) : M A :=
   match fuel with
   | O => panic
-  | S k =>
+  | S f =>
       p <- the_node n ;;
-      h1 <- (fix refs (l : list (refid * string)) : M (list refid) :=
-               match l with
-               | [] => ret []
-               | (r, nm) :: rest =>
-                   fr <- the_ref r ;;
-                   if (0 <? fr_refs fr)%Z then
-                     incref r ;;
-                     match fr_parent fr with
-                     | None => panic                      (* nil dereference of ref.parent *)
-                     | Some pr =>
-                         pfr <- the_ref pr ;;
-                         backend (mkCall MRenamed (fr_file fr) [nm] (Some (fr_file pfr)) [] []) ;;
-                         hs <- refs rest ;;
-                         ret (r :: hs)
-                     end
-                   else refs rest
-               end) (pn_refs p) ;;
-      h2 <- (fix each (l : list (string * nodeid)) : M (list refid) :=
-               match l with
-               | [] => ret []
-               | (_, c) :: rest => a <- notify_name_change k c ;; b <- each rest ;; ret (a ++ b)%list
-               end) (pn_kids p) ;;
-      ret (h1 ++ h2)%list
-  end.
-
-Fixpoint dec_all (l : list refid) : M unit :=
-  match l with
-  | [] => ret tt
-  | r :: t => dec_ref_ r ;; dec_all t
+      (fix refs (l : list (refid * string)) : M A :=
+         match l with
+         | [] =>
+             (fix each (kids : list (string * nodeid)) : M A :=
+                match kids with
+                | [] => k
+                | (_, c) :: rest => notify_name_change f c (each rest)
+                end) (pn_kids p)
+         | (r, nm) :: rest =>
+             fr <- the_ref r ;;
+             if (0 <? fr_refs fr)%Z then
+               incref r ;;
+               with_defer (dec_ref_ r)
+                 (match fr_parent fr with
+                  | None => panic                      (* nil dereference of ref.parent *)
+                  | Some pr =>
+                      pfr <- the_ref pr ;;
+                      backend (mkCall MRenamed (fr_file fr) [nm] (Some (fr_file pfr)) [] []) ;;
+                      refs rest
+                  end)
+             else refs rest
+         end) (pn_refs p)
   end.
 
 (** pathNode.addPathNodeFor (panics when the name already has a node) *)
@@ -490,7 +485,6 @@ Definition rename_child_to (f : refid) (old : string) (target : refid) (new : st
   | Some c =>
       add_path_node_for (fr_node tfr) new c ;;
       fuel <- gets node_fuel ;;
-      held <- notify_name_change fuel c ;;
-      dec_all held
+      notify_name_change fuel c (ret tt)
   | None => ret tt
   end.
